@@ -426,6 +426,45 @@ def mp_case(rep, drv, spec, prop, theorem):
 				rep.tol_cmp += 1
 				if len(o) != len(pr['orders']) or any(not close(a, unfr(b)) for a, b in zip(pr['orders'], o)):
 					diffs.append('node %s t=%d product %s raw material %s: raw-material orders %s, model %s' % (x['node'], x['period'], x['prod'], pr['rm'], pr['orders'], o))
+	if prop == 'C05':
+		# the model's multi-product cost kernel (Model/MultiProd.lean mpCosts) on every reported end-of-period state
+		net = r['net']; reqs = []; keys = []
+		for n in net.nodes:
+			prods = list(n.product_indices)
+			rms = list(n.raw_materials_by_product('all', return_indices=True, network_BOM=True))
+			bom = [[(n.NBOM(product=p, predecessor=None, raw_material=rm) if rm in n.raw_materials_by_product(p, return_indices=True, network_BOM=True) else 0)
+					for rm in rms] for p in prods]
+			for t in range(spec['T']):
+				sv = n.state_vars[t]
+				pl = []
+				for p in prods:
+					tr = 0
+					for s_ in n.successors():
+						q = s_.state_vars[t].inbound_shipment_pipeline.get(n.index, {})
+						if p in q:
+							tr += sum(q[p])
+					ht = n.get_attribute('in_transit_holding_cost', p)
+					pl.append({'h': fr(n.get_attribute('local_holding_cost', p) or 0), 'p': fr(n.get_attribute('stockout_cost', p) or 0),
+							   'ht': None if ht is None else fr(ht), 'rev': fr(n.get_attribute('revenue', p) or 0), 'il': fr(sv.inventory_level[p]),
+							   'odi': fr(sum(sv.outbound_disrupted_items[s_][p] for s_ in sv.outbound_disrupted_items)), 'transit': fr(tr),
+							   'shipped': fr(sum(sv.outbound_shipment[s_][p] for s_ in sv.outbound_shipment))})
+				rl = []
+				for rm in rms:
+					sups = [q for q in n.raw_material_suppliers_by_raw_material(raw_material=rm, network_BOM=True) if q is not None]
+					if sups:
+						rl.append({'rate': fr(sups[0].get_attribute('local_holding_cost', rm) or 0), 'stock': fr(sv.raw_material_inventory[rm]),
+								   'door': fr(sv.inbound_disrupted_items[sups[0].index][rm])})
+					else:
+						rl.append({'rate': '0', 'stock': fr(sv.raw_material_inventory[rm]), 'door': '0'})
+				reqs.append({'fn': 'mp_costs', 'bom': [[fr(v) for v in row] for row in bom], 'prods': pl, 'rms': rl}); keys.append((n, t))
+		outs = drv.batch(reqs) if reqs else []
+		for (n, t), o in zip(keys, outs):
+			sv = n.state_vars[t]
+			rep.tol_cmp += 5
+			for k_, got in (('hc', sv.holding_cost_incurred), ('sc', sv.stockout_cost_incurred), ('ithc', sv.in_transit_holding_cost_incurred),
+							('rv', sv.revenue_earned), ('tc', sv.total_cost_incurred)):
+				if not close(got, unfr(o[k_])):
+					diffs.append('node %s t=%d %s: reported %s, model cost kernel on the same state %s' % (n.index, t, k_, got, float(unfr(o[k_]))))
 	orc = mp_oracles(r['net'], spec['T'], rec)
 	fails = orc[prop]
 	if prop == 'C05':
